@@ -239,6 +239,11 @@ def gen(rng, tier, index):
         if a.indexable and a.elems is not None:
             for i in range(len(a.elems)):
                 cases.append(dict(base, mode='index', i=i))
+            # indices of either sign, also outside the dataset: the wrapper answers
+            # (or refuses) exactly like the plain pipeline
+            m_ = len(a.elems)
+            for i in sorted({-1, -m_, -m_ - 1, -2 * m_, m_, m_ + 2}):
+                cases.append(dict(base, mode='index', i=i))
     return cases
 
 
